@@ -368,11 +368,29 @@ def _check_ensure_tuple(prog, et, r5):
             if name == "all":
                 return [("ok", Const(self.all_ok), state)]
             if name == "issubclass":
-                self.issub.append(node)
-                return [("ok", TOP, state)]
+                okform = len(args) == 2 and args[0] == Opaque("element") and isinstance(node.args[1], ast.Name) and node.args[1].id == "Exception"
+                self.issub.append((node, okform))
+                # the abstract element stands for the offending element if there is one, else for any (valid) element
+                return [("ok", Const(self.all_ok), state)]
             if name == "tuple":
                 return [("ok", Opaque("tuple-of-arg" if node.args else "empty-tuple"), state)]
             return [("ok", TOP, state)]
+
+        def for_next(self, node, itval, state):
+            if itval in (Opaque("tuple-of-arg"), Opaque("arg")):
+                k = ("visited", getattr(node, "lineno", 0))
+                if state.get(k, False):
+                    return []
+                return [(Opaque("element"), state.set(k, True))]
+            return [(TOP, state)]
+
+        def for_exhausted(self, node, itval, state):
+            if itval in (Opaque("tuple-of-arg"), Opaque("arg")) and not state.get(("visited", getattr(node, "lineno", 0)), False):
+                return None
+            return state
+
+        def comprehension(self, node, elem_values, state):
+            return Opaque("list-of-tests")
 
         def name_load(self, name, state, node=None):
             if name == et.pos_params()[1].name and not state.has(name):
@@ -400,15 +418,14 @@ def _check_ensure_tuple(prog, et, r5):
                 ok = not rets and excs and all(e.cls == "ValueError" for s, e, t in excs)
                 want = "raise ValueError for a container of type %s" % tag
             r5.expect(ok, "_ensure_tuple_argument(%s, elements %s) must %s" % (tag, "ok" if all_ok else "bad", want), "_ensure_tuple_argument:row:%s:%s" % (tag, all_ok), "_ensure_tuple_argument on a %s argument (elements %s) must %s but %s" % (tag, "all Exception subclasses" if all_ok else "not all Exception subclasses", want, ("returns %s" % [v for s, v, t in rets]) if rets else ("raises %s" % [e.cls for s, e, t in excs])), fn=et, node=et.node)
-    # the element test is issubclass(<elem>, Exception) over every element of the converted argument
-    comp = [n for n in ast.walk(et.node) if isinstance(n, (ast.ListComp, ast.GeneratorExp)) and isinstance(getattr(n, "_parent", None), ast.Call) and call_name(n._parent) == "all"]
-    ok = False
-    if len(comp) == 1:
-        c = comp[0]
-        e = c.elt
-        g = c.generators[0]
-        ok = isinstance(e, ast.Call) and call_name(e) == "issubclass" and len(e.args) == 2 and isinstance(e.args[0], ast.Name) and isinstance(g.target, ast.Name) and e.args[0].id == g.target.id and isinstance(e.args[1], ast.Name) and e.args[1].id == "Exception" and not g.ifs and len(c.generators) == 1
-    r5.expect(ok, "element test is all(issubclass(e, Exception) for every e)", "_ensure_tuple_argument:element-test", "the element test is no longer `issubclass(element, Exception)` over all elements", fn=et, node=et.node)
+    # the element test is issubclass(<element>, Exception), applied to the elements of the (converted) argument
+    forms = []
+    for all_ok in (True, False):
+        d = TagDomain("list", all_ok)
+        Interp(d, et.node, prog).run(Env())
+        forms += d.issub
+    ok = bool(forms) and all(f[1] for f in forms)
+    r5.expect(ok, "element test is issubclass(element, Exception) over the elements of the argument", "_ensure_tuple_argument:element-test", "the element test is no longer `issubclass(element, Exception)` applied to the elements of the argument (%s)" % ([node_src(f[0]) for f in forms] or "no issubclass call reached"), fn=et, node=et.node)
     r5.count("type-class rows", rows)
 
 
